@@ -494,11 +494,20 @@ def r10_element_position(ctx):
     for mod, cname, segid in (('error_997', 'error_997_visitor', 'AK4'), ('error_999', 'error_999_visitor', 'IK4')):
         f = ctx.func(mod, cname + '.visit_ele')
         n = 0
+        sites = []
         for c in A.calls_in(f):
             r, m = A.call_target(c)
             if m not in ('set', 'append') or not c.args:
                 continue
             val = c.args[-1]
+            if isinstance(val, ast.Name):
+                # the value was put into a local first (one binding per case): each binding is a write site of its own
+                for d in ast.walk(f):
+                    if isinstance(d, ast.Assign) and len(d.targets) == 1 and path_of(d.targets[0]) == val.id:
+                        sites.append((c, m, d.value, d))
+            else:
+                sites.append((c, m, val, A.enclosing(c, (ast.stmt,))))
+        for c, m, val, st in sites:
             if not any((path_of(x) or '').startswith('err_ele.') and (path_of(x) or '').endswith('_pos') for x in ast.walk(val)):
                 continue
             n += 1
@@ -506,7 +515,6 @@ def r10_element_position(ctx):
                 got = A.ev(val, env)
             except (A.NotClosed, TypeError) as e:
                 raise AnalysisError('%s.visit_ele: position expression not closed: %s' % (cname, norm(val)))
-            st = A.enclosing(c, (ast.stmt,))
             conds = A.path_condition(st, f)
             if m == 'set':
                 rd = A.const(c.args[0]) or ''
